@@ -1,3 +1,4 @@
+import Rp2.Props.Tables.Loops
 import Rp2.Proofs.Schedule2
 import Rp2.Proofs.Truncate
 import Rp2.Proofs.ComputeWindow
@@ -57,4 +58,12 @@ theorem model_to_date_run_equals_truncated_run (asset : String) (acctName : Nat 
     by a to-date, and a configuration extended by later years, pair earlier disposals by the same methods -/
 theorem schedule_entries_after_the_to_date_are_irrelevant (sched : List (Int × Method)) (hnd : (sched.map (·.1)).Nodup) (Y y : Int) (hy : y ≤ Y) :
     methodFor (sched.filter (fun p => decide (p.1 ≤ Y))) y = methodFor sched y := methodFor_drop_later sched hnd Y y hy
+
+/-- **tie to the source (translator)**: `EntrySetIterator.__next__`, as translated from the Python source on this run, yields exactly the
+    model's window `viewOf` — the entries up to (not including) the first one dated after the to-date, without those dated before the
+    from-date; both bounds inclusive, dates being the entries' own local dates.  A later entry can only be cut off, never change what is yielded before it. -/
+theorem source_iterator_is_window {α : Type} (day utcDay : α → Int) (fromD toD : Int) (l : List α) :
+    drain (Gen.L.iterNext day utcDay fromD toD) (l.length + 1) l = viewOf day (some fromD) (some toD) l :=
+  Tables.iterator_is_window day utcDay fromD toD l (l.length + 1) (by omega)
+
 end Rp2.C09
